@@ -156,7 +156,7 @@ PROPS = {
     },
     "C04": {
         "level": "proof",
-        "verus": ["limits", "parser_core", "parse_common"],
+        "verus": ["limits", "parser_core", "parse_common", "lexer_next", "lexer_strings", "error"],
         "frame": ["only_lexer_next_makes_limit_errors", "peek_while_is_the_plain_loop"],
         "explanation": "Verus proves the LimitTracker contract (reached <=> current+1 > limit; balanced current; high-water mark) and the token-limit "
                        "contract of Lexer::next (at most `limit` calls of Cursor::advance; a limit error item iff the limit is exhausted, after which the lexer "
@@ -165,10 +165,11 @@ PROPS = {
                        "document()'s `assert_eq!(recursion_limit.current, 0)` never fires; the tree text only grows at the end and stays a prefix of the input, errors are only appended and frozen once "
                        "the token limit was hit (no error after the token-limit error), recursion bookkeeping is balanced and never exceeds the limit. "
                        "On the compiler side (unit parse_common) Verus proves for apollo_compiler::parser::Parser::parse_common, for every parse closure: the apollo-parser Parser is built from exactly the "
-                       "source text and the configured limits, and after the call recursion_reached / tokens_reached equal the high-water marks of the returned tree, whatever an earlier call left there.",
+                       "source text and the configured limits, and after the call recursion_reached / tokens_reached equal the high-water marks of the returned tree, whatever an earlier call left there. "
+                       "'A limit error comes from Lexer::next only' is no longer a syntactic side condition: unit error proves on the real constructors that with_loc / set_data never make a limit error and Error::limit always does, "
+                       "unit lexer_strings proves that no call of Cursor::advance / eof / done returns one, and unit lexer_next (the real Lexer::next) assumes exactly that clause (the frame check stays as a second line of defence).",
         "not_decided": ["global 'recursion-limit error iff nesting depth exceeds r' as one statement over the token stream (each guarded function is proved to check, balance and never exceed the limit; the iff is not composed)",
                         "that the tree's LimitTracker values are the parser's (finish_document / finish_type / finish_selection_set hand them over unchanged: syntax_tree.rs, rowan; shim contract)",
-                        "Cursor::advance itself (external_body: one call = one lexer item, never a limit error; second half checked syntactically)",
                         "'limit error iff the unlimited token stream is longer than n' needs the unlimited stream as a ghost; only the per-call iff is proved"],
     },
     "C31": {
